@@ -1,5 +1,6 @@
 import PPLV.Checked.Spec
 import PPLV.Checked.Bounded
+import PPLV.Checked.ModelFixed
 /-!
 `pplv_c11`: reads the journal of `harness/c11_checked.cc` on stdin (grammar there) and, for every
 executed case, (1) runs the code-shaped model `IntOp.run`, (2) evaluates — independently of the
@@ -18,6 +19,7 @@ open PPLV.Checked
 structure Cfg where
   types : List (String × IntTy) := []
   pols : List (String × Policy) := []
+  fixes : Fixes := {}
 
 def Cfg.ty (c : Cfg) (n : String) : Option IntTy := (c.types.find? (·.1 == n)).map (·.2)
 def Cfg.pol (c : Cfg) (n : String) : Option Policy := (c.pols.find? (·.1 == n)).map (·.2)
@@ -108,7 +110,7 @@ structure CaseOut where
   nontrivial : Bool
   line : Unit → String
 
-def checkCase (t : IntTy) (π : Policy) (tn pn opn : String) (op : IntOp) (dirN : Nat) (a : Operands)
+def checkCase (fx : Fixes) (t : IntTy) (π : Policy) (tn pn opn : String) (op : IntOp) (dirN : Nat) (a : Operands)
     (realStored : Int) (realCode : Nat) : CaseOut :=
   match Dir.ofCode dirN with
   | none => { skipped := true, obligations := [], nontrivial := false, line := fun _ => "" }
@@ -116,7 +118,7 @@ def checkCase (t : IntTy) (π : Policy) (tn pn opn : String) (op : IntOp) (dirN 
     if !IntOp.pre t π op a then { skipped := true, obligations := [], nontrivial := false, line := fun _ => "" }
     else
       let realRes := Result.ofNat realCode
-      let (ms, mr) := IntOp.run t π op dir a
+      let (ms, mr) := IntOp.runF fx t π op dir a
       let msw := t.wrap ms
       let exact := IntOp.exact t π op a
       let st := t.denote π realStored
@@ -267,7 +269,7 @@ def handleRow (key : Nat) (data : ByteArray) : M Unit := do
           | "exp" => { to0 := s.tabTo0, x := t.wrap i, e := key }
           | "asg8" => { to0 := s.tabTo0, x := ft.wrap i }
           | _ => { to0 := s.tabTo0, x := ft.wrap (key * 256 + i) }
-        let o := checkCase t π s.tabT s.tabP s.tabOp op s.tabDir a (t.wrap sb) code
+        let o := checkCase s.cfg.fixes t π s.tabT s.tabP s.tabOp op s.tabDir a (t.wrap sb) code
         if o.skipped then sk := sk + 1
         else
           n := n + 1
@@ -292,7 +294,7 @@ def progOp (s : String) : Option IntOp :=
   | "addMul" => some .addMul | "subMul" => some .subMul | "div" => some .div | "rem" => some .rem
   | "gcd" => some .gcd | "lcm" => some .lcm | _ => none
 
-def runProgModel (t : IntTy) (π : Policy) (instrs : List String) (regs : Array Int) : Option Nat × Array Int := Id.run do
+def runProgModel (fx : Fixes) (t : IntTy) (π : Policy) (instrs : List String) (regs : Array Int) : Option Nat × Array Int := Id.run do
   let mut r := regs
   let mut k := 0
   for ins in instrs do
@@ -301,7 +303,7 @@ def runProgModel (t : IntTy) (π : Policy) (instrs : List String) (regs : Array 
       match progOp nm with
       | some op =>
         let di := tokNat d
-        let out := IntOp.run t π op .ignore { to0 := r[di]!, x := r[tokNat a]!, y := r[tokNat b]! }
+        let out := IntOp.runF fx t π op .ignore { to0 := r[di]!, x := r[tokNat a]!, y := r[tokNat b]! }
         if throws out.2 then return (some k, r)
         r := r.set! di (t.wrap out.1)
       | none => return (some 999, r)
@@ -323,7 +325,7 @@ def handleProg (id tn : String) (rest : List String) : M Unit := do
     let outcome := b.getD 1 ""
     let bregs := ((b.drop 2).map tokInt).toArray
     let uregs := (((p4.splitOn " ").drop 1).map tokInt).toArray
-    let (mexc, mregs) := runProgModel t π instrs init
+    let (mexc, mregs) := runProgModel s.cfg.fixes t π instrs init
     let bexc : Option Nat := if outcome == "ok" then none else (outcome.splitOn ":").getLast?.map tokNat
     let key := s!"{tn} BIC prog"
     let mut obs : List String := []
@@ -353,6 +355,14 @@ partial def loop (h : IO.FS.Stream) : M Unit := do
   | ["cfg", "policy", n, a, b, c, d, e, f, g, h', i, j] =>
     let po : Policy := Policy.mk (tokB a) (tokB b) (tokB c) (tokB d) (tokB e) (tokB f) (tokB g) (tokB h') (tokB i) (tokB j)
     modify fun s => { s with cfg := { s.cfg with pols := (n, po) :: s.cfg.pols } }
+  | ["cfg", "fix", name, v] =>
+    modify fun s =>
+      let f := s.cfg.fixes
+      let on := tokB v
+      let f' : Fixes := match name with
+        | "div" => { f with div := on } | "subMul" => { f with subMul := on }
+        | "umod" => { f with umod := on } | "isqrt" => { f with isqrt := on } | _ => f
+      { s with cfg := { s.cfg with fixes := f' } }
   | ["tab", id, tn, pn, opn, d, to0, kind] =>
     modify fun s => { s with tabId := id, tabT := tn, tabP := pn, tabOp := opn, tabDir := tokNat d, tabTo0 := tokInt to0,
                              tabKind := kind }
@@ -372,7 +382,7 @@ partial def loop (h : IO.FS.Stream) : M Unit := do
     match s.cfg.ty tn, s.cfg.pol pn, parseOp s.cfg opn with
     | some t, some π, some op =>
       let a : Operands := { to0 := tokInt to0, x := tokInt x, y := tokInt y, e := tokNat e }
-      let o := checkCase t π tn pn opn op (tokNat d) a (tokInt st) (tokNat code)
+      let o := checkCase s.cfg.fixes t π tn pn opn op (tokNat d) a (tokInt st) (tokNat code)
       record s!"{tn} {pn} {opn}" id o true
     | _, _, _ => IO.println s!"MISMATCH {id} parse {line.trimAscii.toString}"
   | ["q", id, tn, pn, what, x, y, rel] =>
